@@ -241,7 +241,7 @@ class PerCall(Unit):
         self.world = w
         key, cnt = PER_CALL[case["method"]]
         lay = L.CDB[key]
-        self.data = bytearray(b"\x11" * 4)
+        self.data = bytearray(b"\x11" * 5)
         with world_installed(w):
             dev = X.call(devmod().SCSIDevice, PATH, True) if case["transport"] == "sgio" else X.call(iscsimod().ISCSIDevice, URL, "iqn.2000-01.test:i")
             s = object.__new__(S)
@@ -298,10 +298,10 @@ class PerCall(Unit):
             tasks = self.world.events("iscsi.Task")
             if len(tasks) == 1:
                 _, task, tcdb, direction, xferlen = tasks[0]
-                exp_dir = 1 if case["method"].startswith("read") else 2 if case["method"].startswith("write") else 0
-                nonempty = V.buf_len(din) != 0 if exp_dir == 1 else (V.buf_len(dout) != 0 if exp_dir == 2 else False)
-                yield "C12", "iscsi-transfer-direction", V.bor(V.bnot(nonempty), direction == exp_dir)
-                yield "C12", "iscsi-transfer-length", xferlen == (V.buf_len(din) if exp_dir == 1 else V.buf_len(dout) if exp_dir == 2 else 0) if exp_dir != 2 else True
+                # what the target is told about the data phase: the direction and exactly the length of the buffer
+                nout, nin = V.buf_len(dout), V.buf_len(din)
+                yield "C12", "iscsi-transfer-direction", direction == V.ite(nout != 0, 2, V.ite(nin != 0, 1, 0))
+                yield "C12", "iscsi-transfer-length", xferlen == V.ite(nout != 0, nout, nin)
 
 
 class ArrayLemmas(Unit):
